@@ -138,5 +138,5 @@ def run(rep, tier, seed, only=None):
     rep.outside = ["circuits with more than 6 inputs for MergeEquivalentGates", "arity > 4"]
     rep.rule = "program = (circuit, pass pipeline); equivalence of every output decided by z3 over all inputs; interface/argument/size predicates concrete"
     rep.explanation = "translation validation of each pass application"
-    n = 48 if thorough else 16
+    n = 192 if thorough else 64
     rep.pmap(unit, [(seed * 101 + s, 30 if thorough else 12) for s in range(n)])
